@@ -806,7 +806,8 @@ META = {
                        'remotely_queued and the `remotely` argument (Bool)'],
     'discriminants': ['state class (10)', 'request (8 state methods + 3 TransferManager calls)', 'direction (2)',
                       'None-ness of each Optional field', 'which task slots are occupied', 'hops suspend or not',
-                      'arrival point of the 2nd / 3rd request (schedule)'],
+                      'arrival point of the 2nd / 3rd request (schedule)',
+                      'how the caller passes the argument (left out / keyword / positional, as manager.py does)'],
     'bounds': {'quick': {'step': 'all states x 11 requests x 2 directions; None-ness: start_time x all-others',
                          'sequence': 'k=3 requests from the constructor', 'overlap': '2 requests, all states, 11x11, slow hops'},
                'thorough': {'step': 'all 2^7 None-ness patterns, 4 task-slot patterns', 'sequence': 'k=4',
@@ -814,7 +815,8 @@ META = {
     'outside': ['more than three overlapping requests', 'the callers in manager.py (which request they issue when) - only the three '
                 'public TransferManager calls are executed', 'read_cache assigning transfer.state directly',
                 'real aiofiles threads and real file system', 'listeners that themselves issue requests (would deadlock on the non-reentrant lock)',
-                'whether an allowed request is accepted, and the side effects of accepted requests (not part of the statement)'],
+                'whether an allowed request is accepted, and side effects of accepted requests other than the documented reason '
+                '(abort_reason / fail_reason) and the remotely_queued flag'],
     'assumptions': ['uploads are never in DOWNLOADING and downloads never in UPLOADING (preserved by the checked edges, which are direction aware)',
                     'asyncio.Lock is FIFO-fair (CPython 3.12)', 'time.time()/time.monotonic() do not go backwards'],
 }
